@@ -1231,9 +1231,29 @@ func functionReach(prop, tree, reachedHex string) map[string]interface{} {
 	}
 	total, got, atotal, agot := 0, 0, 0, 0
 	var missing []string
+	// files whose build constraint excludes them from the native amd64 build are not part of the measure
+	inactive := map[string]bool{}
+	isInactive := func(f string) bool {
+		if v, ok := inactive[f]; ok {
+			return v
+		}
+		v := false
+		if b, err := os.ReadFile(filepath.Join(repoDir, f)); err == nil {
+			for _, line := range strings.SplitN(string(b), "\n", 40) {
+				if strings.HasPrefix(line, "//go:build") && (strings.Contains(line, "!amd64") || strings.Contains(line, "arm64")) && !strings.Contains(line, "amd64 &&") {
+					v = true
+				}
+			}
+		}
+		inactive[f] = v
+		return v
+	}
 	for i, n := range st.Names {
 		if strings.Contains(n, "#") {
 			continue // error-code probes are reported separately
+		}
+		if i < len(st.Files) && isInactive(st.Files[i]) {
+			continue
 		}
 		total++
 		if hit(i) {
